@@ -21,7 +21,9 @@ RULE = ("cases = (policy, loop order of depth 1-3, tensors with rank lists/shape
         "(cache), also with stamp ties; all small filter / combine / next-use inputs. random: 1-3 bindings over 1-2 tensors, "
         "loop_ranks renaming, several elements per line, shared trace files, ties, multi-digit stamps / coordinates / "
         "positions (9 next to 10, 2 next to 11, 100; also exhaustively for filter / combine / next-use), ranks declared "
-        "format U or C, every binding type x cbits/pbits/line-size combination (elements per line). non-trivial = some line is reused "
+        "format U or C (or the key omitted), every binding type x cbits/pbits/line-size combination (elements per line), "
+        "tensors whose shape is only estimated (a pinned binding is then a predicted rejection), line sizes / capacities "
+        "that are no multiples, every first call repeated with the same argument objects. non-trivial = some line is reused "
         "(buffet/cache), some row dropped and some kept (filter), both files non-empty (combine), a reuse (nextuse)")
 
 _T = {}
@@ -144,19 +146,26 @@ def _layout(case, tensor, rank):
     return "contiguous"
 
 
-def _call_traffic(case, cap, rows_of):
-    """one call of buffetTraffic / cacheTraffic in a fresh scratch directory"""
+def _call_traffic(case, cap, rows_of, repeat=False):
+    """one call of buffetTraffic / cacheTraffic in a fresh scratch directory; `repeat`: call a second time
+    with the very same argument objects (Format objects, dicts, files) and compare"""
     Traffic, Format = _mods()
     Tensor = H.ft().Tensor
     d = tempfile.mkdtemp(prefix="c17-", dir=_scratch_base())
     try:
-        tensors = {t["name"]: Tensor(rank_ids=list(t["ranks"]), shape=list(t["shape"]), name=t["name"])
+        tensors = {t["name"]: (Tensor(rank_ids=list(t["ranks"]), shape=list(t["shape"]), name=t["name"])
+                              if t["shape"] is not None else Tensor(rank_ids=list(t["ranks"]), name=t["name"]))
                    for t in case["tensors"]}
         specs = {}
         for f in case["fmts"]:
-            specs.setdefault(f["tensor"], {})[f["rank"]] = {
-                "cbits": f["cbits"], "pbits": f["pbits"], "format": f.get("format", "C"),
-                "layout": _layout(case, f["tensor"], f["rank"])}
+            if f.get("omit") == "rank":        # a rank nobody binds may be missing from the spec altogether
+                specs.setdefault(f["tensor"], {})
+                continue
+            sp = {"cbits": f["cbits"], "pbits": f["pbits"], "format": f.get("format", "C"),
+                  "layout": _layout(case, f["tensor"], f["rank"])}
+            for key in f.get("omit") or ():    # fields left to Format's defaults ("C", "contiguous")
+                del sp[key]
+            specs.setdefault(f["tensor"], {})[f["rank"]] = sp
         formats = {nm: Format(tensors[nm], specs.get(nm, {})) for nm in tensors}
         trace_fns, contents = {}, {}
         for k, t in enumerate(case["traces"]):
@@ -176,7 +185,8 @@ def _call_traffic(case, cap, rows_of):
         else:
             bindings = [{"tensor": b["tensor"], "rank": b["rank"], "type": b["type"]} for b in case["bindings"]]
             fun = Traffic.cacheTraffic
-        lr = {a: b for a, b in case["loop_ranks"]} if case["loop_ranks"] else None
+        lr = {a: b for a, b in case["loop_ranks"]} if (case["loop_ranks"] or case.get("lr_dict")) else None
+        args_before = (copy.deepcopy(bindings), dict(trace_fns))
         before = sorted(os.listdir(d))
         res = {}
         try:
@@ -187,6 +197,16 @@ def _call_traffic(case, cap, rows_of):
         except Exception as e:  # a crash on a legal input is an observation
             res["err"] = H.err_class(e)
         res["clean"] = sorted(os.listdir(d)) == before
+        res["args_kept"] = (bindings, trace_fns) == args_before
+        if repeat and "err" not in res:
+            try:
+                t2, o2 = fun(bindings, formats, trace_fns, float("inf") if cap is None else cap,
+                             case["ls"], loop_ranks=lr)
+                again = (sorted([t, a, v] for t, acc in t2.items() for a, v in acc.items()), o2)
+                res["repeat_ok"] = again == (res["traffic"], res["over"]) and t2 is not traffic \
+                    and sorted(os.listdir(d)) == before
+            except Exception:
+                res["repeat_ok"] = False
         res["inputs_kept"] = all(os.path.exists(fn) and open(fn).read() == c for fn, c in contents.items())
         return res
     finally:
@@ -204,7 +224,7 @@ def _epl(case, b):
 def _jitter(case, rng):
     """other positions on the same line (for every binding reading the trace) and on the same side
     of every declared shape"""
-    shapes = sorted({s for t in case["tensors"] for s in t["shape"]})
+    shapes = sorted({s for t in case["tensors"] for s in (t["shape"] or ())})
     out = []
     for k, t in enumerate(case["traces"]):
         users = [u for j, u in enumerate(case["traces"]) if j == k or u.get("file") == k]
@@ -247,11 +267,14 @@ def _optimal_fills(lines, k):
 
 
 def _run_traffic(case):
-    runs = [_call_traffic(case, cap, lambda k: case["traces"][k]["rows"]) for cap in case["caps"]]
+    runs = [_call_traffic(case, cap, lambda k: case["traces"][k]["rows"], repeat=(j == 0))
+            for j, cap in enumerate(case["caps"])]
     side = {}
     ok_runs = [r for r in runs if "err" not in r]
     side["temp_files_removed"] = all(r["clean"] for r in ok_runs)
     side["input_traces_untouched"] = all(r["inputs_kept"] for r in runs)
+    side["bindings_and_trace_dict_unchanged"] = all(r["args_kept"] for r in runs)
+    side["second_call_same_objects_same_result"] = all(r.get("repeat_ok", True) for r in runs)
     impl = {"runs": [{"err": r["err"]} if "err" in r else {"traffic": r["traffic"], "over": r["over"]} for r in runs],
             "jit": None}
     if case.get("jitter_seed") is not None:
@@ -290,7 +313,8 @@ def run(case):
 # generators
 # ---------------------------------------------------------------------------------------
 
-def _case(op, tensors, bindings, traces, ls, caps, loop_ranks=(), bits=None, jitter_seed=None, ufmt=(), **kw):
+def _case(op, tensors, bindings, traces, ls, caps, loop_ranks=(), bits=None, jitter_seed=None, ufmt=(),
+          omit=None, **kw):
     """`ufmt`: the (tensor, rank) pairs declared with format "U" (the element footprint that sets the
     number of elements per line does not depend on the declared format)"""
     fmts = []
@@ -299,6 +323,9 @@ def _case(op, tensors, bindings, traces, ls, caps, loop_ranks=(), bits=None, jit
             cb, pb = (bits or {}).get((t["name"], r), (32, 32))
             fmts.append({"tensor": t["name"], "rank": r, "cbits": cb, "pbits": pb,
                          "format": "U" if (t["name"], r) in ufmt else "C"})
+            om = (omit or {}).get((t["name"], r))
+            if om:
+                fmts[-1]["omit"] = om
     c = {"prop": PROP, "op": op, "tensors": tensors, "fmts": fmts, "loop_ranks": [list(x) for x in loop_ranks],
          "bindings": bindings, "traces": traces, "ls": ls, "caps": caps, "jitter_seed": jitter_seed}
     c.update(kw)
@@ -356,6 +383,9 @@ def _small_buffet(tier):
                             tr.append({"tensor": "Z", "rank": "K", "type": "payload", "access": "read",
                                        "header": ["M", "K"], "rows": rr})
                         yield _case("buffet", tens, b, tr, 32, [32], kind="small-rw")
+                        if ln <= 2:   # shape only estimated: fine unless the binding is pinned (then rejected)
+                            yield _case("buffet", [{"name": "Z", "ranks": ["K"], "shape": None}], b,
+                                        copy.deepcopy(tr), 32, [32], kind="small-rw-estimated")
 
 
 def _small_widths(tier):
@@ -374,6 +404,11 @@ def _small_widths(tier):
                             continue
                         tr = [{"tensor": "A", "rank": "K", "type": ty, "access": "read", "header": ["K"], "rows": rows}]
                         uf = {("A", "K")} if fmt == "U" else ()
+                        if fmt == "C" and cb == pb:     # the same with the keys left to Format's defaults
+                            om = {("A", "K"): ["format"] + ([] if ty == "elem" else ["layout"])}
+                            yield _case("buffet", tens, [{"tensor": "A", "rank": "K", "type": ty, "evict_on": "root"}],
+                                        copy.deepcopy(tr), ls, [ls + 1], bits={("A", "K"): (cb, pb)}, omit=om,
+                                        kind="small-widths-defaults")
                         yield _case("buffet", tens, [{"tensor": "A", "rank": "K", "type": ty, "evict_on": "root"}],
                                     tr, ls, [None], bits={("A", "K"): (cb, pb)}, ufmt=uf, kind="small-widths")
                         yield _case("cache", tens, [{"tensor": "A", "rank": "K", "type": ty}],
@@ -425,6 +460,9 @@ def _small_cache(tier):
                     tr.append({"tensor": "Z", "rank": "K", "type": "payload", "access": "read",
                                "header": ["K"], "rows": rr})
                 yield _case("cache", tens, b, tr, 32, [0, 32, 64, None], kind="small-rw")
+                if ln <= 2:
+                    yield _case("cache", [{"name": "Z", "ranks": ["K"], "shape": None}], b,
+                                copy.deepcopy(tr), 32, [32, None], kind="small-rw-estimated")
 
 
 def _small_tools(tier):
@@ -517,8 +555,8 @@ def _random_traffic(rng, op, tier):
             own[j] = alias
             loop_ranks.append((alias, sub[j]))
         tensors.append({"name": name, "ranks": own, "shape": [rng.choice((2, 3, 4, 6, 11, 13)) for _ in own],
-                        "_loop": sub})
-    ls = rng.choice((32, 64, 128))
+                        "_loop": sub, "_estimated": rng.random() < 0.2})
+    ls = rng.choice((32, 64, 128, 48, 100))
     bits = {}
     for t in tensors:
         for r in t["ranks"]:
@@ -571,18 +609,33 @@ def _random_traffic(rng, op, tier):
                 for k, tr in enumerate(list(traces)):
                     if (tr["tensor"], tr["rank"], tr["type"]) == (b["tensor"], b["rank"], "coord"):
                         traces.append(dict(tr, type="payload", file=k if "file" not in tr else tr["file"]))
+    bound = {(b["tensor"], b["rank"]) for b in bindings}
+    omit = {}
+    for t in tensors:
+        for r in t["ranks"]:
+            if (t["name"], r) not in bound and rng.random() < 0.3:
+                omit[(t["name"], r)] = "rank"
+            elif rng.random() < 0.3:
+                keys = ["format"] if rng.random() < 0.6 else []
+                if mode.get((t["name"], r)) != "elem" and rng.random() < 0.6:
+                    keys.append("layout")
+                if keys:
+                    omit[(t["name"], r)] = keys
     for t in tensors:
         del t["_loop"]
+        # a tensor whose shape is only estimated (nothing declared); a pinned binding then is a rejection
+        if t.pop("_estimated"):
+            t["shape"] = None
     nlines = 6
     if op == "buffet":
-        caps = [rng.choice((0, ls, 2 * ls, 5 * ls, None))]
+        caps = [rng.choice((0, 1, ls, ls + ls // 2, 2 * ls, 5 * ls - 1, 5 * ls, None))]
     else:
         caps = sorted(set(rng.sample([0, ls // 2, ls, 2 * ls, 3 * ls, 4 * ls, nlines * ls, 2 * ls + ls // 2], 3)))
         if rng.random() < 0.5:
             caps.append(None)
     ufmt = {(t["name"], r) for t in tensors for r in t["ranks"] if rng.random() < 0.4}
-    return _case(op, tensors, bindings, traces, ls, caps, loop_ranks=loop_ranks, bits=bits, ufmt=ufmt,
-                 jitter_seed=rng.randrange(1 << 30), kind="random")
+    return _case(op, tensors, bindings, traces, ls, caps, loop_ranks=loop_ranks, bits=bits, ufmt=ufmt, omit=omit,
+                 jitter_seed=rng.randrange(1 << 30), kind="random", lr_dict=rng.random() < 0.3)
 
 
 def _random_tools(rng, tier):
